@@ -4,13 +4,19 @@
 The execution request is the one the real chain produces for the user's event (c14_chain
 --opt mode=dump: echsq add_fd -> echsd parse/resched/vtodoify), the job is a real `sleep`.
 Judged from echsx's own journal (X-REAL-TIME, X-SIGNAL): a job outliving its limit dies no
-earlier than the limit and no later than limit + SLACK; a job that finishes earlier is unaffected.
+earlier than the limit (read off the seconds echsx armed, which the shim logs; off the run time only when that is
+not on record) and no later than limit + SLACK; a job that finishes earlier is unaffected.
 SLACK is deliberately generous (the machine is shared, load 40+): the property allows `about a
 second' of jitter, the check only raises an alarm beyond 4 s -- the unlimited job would sleep 8 s.
 
+Request streams added later (cases 9..): what a REFUSED request (DUE long past, unknown user) leaves behind in the
+process meets a limited job run by a shell that keeps the signal mask it inherits (bash); several DUE requests in one
+stream, each to be measured against the clock at the moment its turn comes (DUE times are laid relative to the second
+T0 in which echsx is started); echsx started with SIGALRM and SIGXCPU blocked by its parent.
+
 options: echsx=PATH (default /repo/src/echsx)  bdir=DIR (echsx_shim.so, c14_chain; default <V>/build/plain/exec)
 """
-import os, sys, subprocess, tempfile, shutil, re, concurrent.futures as cf
+import os, sys, subprocess, tempfile, shutil, re, time, concurrent.futures as cf
 sys.path.insert(0, os.path.dirname(os.path.abspath(__file__)))
 import e3lib
 from e3lib import Drv, rd, parse_journal
@@ -29,15 +35,67 @@ CASES = [
     [(1, 'DTEND', 'sleep 8', True), (2, 'DURATION', 'sleep 0', False), (1, 'DURATION', 'sleep 8', True)],
     [(2, 'DURATION', 'sleep 0', False), (1, 'DTEND', 'sleep 8', True), (1, 'DTEND', 'sleep 8', True)],
 ]
-QUICK = (0, 4, 6, 7)
+# a shell that leaves the signal mask it inherits alone (dash resets it when it forks); failing that a program
+# that is exec'd directly as `SHELL -c COMMAND'
+if os.path.exists('/bin/bash'):
+    JSH, JSLEEP = '/bin/bash', 'sleep %d'
+else:
+    JSH, JSLEEP = '/usr/bin/python3', '__import__("time").sleep(%d)'
+NOUSER = 'c14nosuchuser'
+
+
+def K(L, kind='DURATION', secs=8):
+    """a job that outlives its limit, under JSH"""
+    return {'L': L, 'kind': kind, 'cmd': JSLEEP % secs, 'must': True, 'shell': JSH}
+
+
+def DUE(off, secs, shell=None):
+    """DUE = T0 + off (T0: the second in which echsx is started); what is to happen to the job follows from the
+    journal: refused iff overdue when its turn comes, else killed at DUE unless it ends earlier"""
+    return {'L': off, 'kind': 'DUE', 'cmd': (JSLEEP if shell else 'sleep %d') % secs, 'must': None, 'shell': shell}
+
+
+NEWCASES = [
+    # a refused request, then a job that outlives its limit
+    {'reqs': [DUE(-3600, 1, JSH), K(1)]},
+    {'reqs': [{'L': 0, 'kind': 'BADUSER', 'cmd': JSLEEP % 1, 'must': None, 'shell': JSH}, K(1)]},
+    {'reqs': [DUE(-3600, 1, JSH), DUE(2, 8, JSH)]},
+    # A ends long before its DUE; B's turn comes 2 s before its DUE, it wants 8 s; C's DUE has passed when its turn comes
+    {'reqs': [DUE(30, 3), DUE(5, 8), DUE(1, 1)]},
+    # A ends early; B is overdue when its turn comes; then a job that outlives its 1 s
+    {'reqs': [DUE(30, 2, JSH), DUE(1, 1, JSH), K(1)]},
+    # echsx inherits a mask with SIGALRM and SIGXCPU blocked
+    {'reqs': [K(1)], 'blocked': ('SIGALRM', 'SIGXCPU')},
+]
+CASES += NEWCASES
+QUICK = (0, 4, 6, 7, 9, 10, 11, 12, 13, 14)
+
+# exec echsx with some signals blocked (the mask survives the exec)
+MASKED = ('import os, signal, sys\n'
+          'signal.pthread_sigmask(signal.SIG_BLOCK, [getattr(signal, s) for s in sys.argv[1].split(",")])\n'
+          'os.execv(sys.argv[2], sys.argv[2:])\n')
+
+
+def norm(case):
+    """(requests as dicts, names of the signals echsx finds blocked, old-style case)"""
+    if isinstance(case, dict):
+        return case['reqs'], case.get('blocked', ()), False
+    return [{'L': L, 'kind': kind, 'cmd': cmd, 'must': must, 'shell': None} for L, kind, cmd, must in case], (), True
+
+
+def ical_utc(t):
+    return time.strftime('%Y%m%dT%H%M%SZ', time.gmtime(t))
 
 
 def run(base, idx, case, echsx, shim, chain):
     d = os.path.join(base, '%d' % idx)
     os.makedirs(d)
+    reqs, blocked, _ = norm(case)
     head, blocks, tail = None, [], None
-    for n, (L, kind, cmd, _) in enumerate(case):
-        p = subprocess.run([chain, '--opt', 'mode=dump', '--opt', 'limit=%d' % L, '--opt', 'kind=' + kind, '--opt', 'cmd=' + cmd],
+    for n, q in enumerate(reqs):
+        L, kind, cmd = q['L'], q['kind'], q['cmd']
+        ckind = kind if kind in ('DURATION', 'DTEND') else 'NONE'
+        p = subprocess.run([chain, '--opt', 'mode=dump', '--opt', 'limit=%d' % L, '--opt', 'kind=' + ckind, '--opt', 'cmd=' + cmd],
                            stdout=subprocess.PIPE, stderr=subprocess.PIPE, cwd=d)
         if p.returncode:
             return {'err': 'c14_chain dump failed: %s' % p.stderr.decode('latin-1')[-300:]}
@@ -47,16 +105,42 @@ def run(base, idx, case, echsx, shim, chain):
             return {'err': 'c14_chain dump holds no VTODO'}
         j += len('END:VTODO\n')
         head, tail = head or txt[:i], txt[j:]
-        blocks.append(txt[i:j].replace('UID:c14-limit', 'UID:c14-limit-%d' % n))
-    req = (head + ''.join(blocks) + tail).encode('latin-1')
+        blk = txt[i:j].replace('UID:c14-limit', 'UID:c14-limit-%d' % n)
+        # the requests echsd does not write itself: the driver's edits of the request echsd wrote for the same job
+        if q['shell']:
+            blk, k = re.subn(r'(?m)^X-ECHS-SHELL:.*$', 'X-ECHS-SHELL:' + q['shell'], blk)
+            if k != 1:
+                return {'err': 'no X-ECHS-SHELL line in the request'}
+        if kind == 'DUE':
+            blk, k = re.subn(r'(?m)^(LOCATION:.*\n)', r'\1DUE:@T0%+d@\n' % L, blk)
+            if k != 1:
+                return {'err': 'no LOCATION line in the request'}
+        elif kind == 'BADUSER':
+            blk, k = re.subn(r'(?m)^X-ECHS-SETUID:.*$', 'X-ECHS-SETUID:' + NOUSER, blk)
+            if k != 1:
+                return {'err': 'no X-ECHS-SETUID line in the request'}
+        blocks.append(blk)
+    tmpl = head + ''.join(blocks) + tail
+    T0 = 0
+    if '@T0' in tmpl:
+        # start echsx shortly after the beginning of a second (not on it: time(2) may lag a tick behind)
+        t = time.time()
+        T0 = int(t) + 1
+        time.sleep(T0 + 0.02 - t)
+    req = re.sub(r'@T0([+-]\d+)@', lambda m: ical_utc(T0 + int(m.group(1))), tmpl).encode('latin-1')
     env = {'LD_PRELOAD': shim, 'E3_LOG': os.path.join(d, 'shim.log'), 'PATH': '/usr/bin:/bin'}
+    argv = [echsx, '-v']
+    if blocked:
+        argv = [sys.executable, '-c', MASKED, ','.join(blocked)] + argv
+    launch = int(time.time())
     with open(os.path.join(d, 'journal'), 'wb') as fo, open(os.path.join(d, 'echsx.err'), 'wb') as fe:
         try:
-            q = subprocess.run([echsx, '-v'], input=req, stdout=fo, stderr=fe, cwd=d, env=env, timeout=90)
+            q = subprocess.run(argv, input=req, stdout=fo, stderr=fe, cwd=d, env=env, timeout=90)
         except subprocess.TimeoutExpired:
-            return {'err': 'echsx did not finish within 90 s', 'req': req}
+            return {'err': 'echsx did not finish within 90 s', 'req': req, 'tmpl': tmpl}
     j = parse_journal(rd(os.path.join(d, 'journal')))
-    return {'req': req, 'rc': q.returncode, 'journal': j, 'shim': (rd(os.path.join(d, 'shim.log')) or b'').decode('latin-1')}
+    return {'req': req, 'tmpl': tmpl, 'T0': T0, 'launch': launch, 'rc': q.returncode, 'journal': j,
+            'shim': (rd(os.path.join(d, 'shim.log')) or b'').decode('latin-1')}
 
 
 def main():
@@ -87,6 +171,9 @@ def main():
 
 
 def judge(D, case, r):
+    reqs, blocked, old = norm(case)
+    if not old:
+        return judge_stream(D, reqs, blocked, r)
     lim = [l for l in (r.get('req') or b'').decode('latin-1').split('\n') if l.startswith(('DURATION', 'DUE'))]
     D.desc('real run of one echsx request stream: %s; echsd hands echsx %s' % (
         ', then '.join("`%s' under a %d s limit given as %s" % (cmd, L, kind) for L, kind, cmd, _ in case), lim or 'no limit line'))
@@ -96,6 +183,12 @@ def judge(D, case, r):
         return
     js = r['journal']
     alarms = re.findall(r'^alarm (\d+)$', r['shim'], re.M)
+    # X-REAL-TIME is counted from the moment the job is spawned, the timer from the moment it is armed: on a busy
+    # machine the spawn alone has been seen to take more than a second, so `killed early' is read off what echsx armed
+    # (one non-zero alarm() per request, in order) whenever that is on record, and off the run time only otherwise
+    armed = [int(a) for a in alarms if int(a)]
+    if len(armed) != len(case):
+        armed = None
     if len(js) != len(case):
         D.viol('rt/journal/%s' % pos, '%d journal entries for %d requests, echsx exit status %s' % (len(js), len(case), r.get('rc')))
         return
@@ -112,16 +205,130 @@ def judge(D, case, r):
             if sig is None:
                 D.viol('rt/not-killed/%s/%s' % (kind, where), 'job outlived its %d s limit and ran to its own end (%s s): %s' % (
                     L, 'about 8' if real >= 7.5 else 'less than 7.5', what))
-            elif real < L - 0.1:
+            elif (armed[n] < L) if armed else (real < L - 0.1):
                 D.viol('rt/early/%s/%s' % (kind, where), 'job killed before its %d s limit: %s' % (L, what))
             elif real > L + SLACK:
                 D.viol('rt/late/%s/%s' % (kind, where), 'job killed more than %.0f s after its %d s limit: %s' % (SLACK, L, what))
+        elif sig == '24' and real >= L - 1.5:
+            # the machine is so busy that the job did not get done before its limit: not the run we meant to see
+            D.count('premise_missed')
         else:
             if sig is not None or j.get('X-EXIT-STATUS') != '0':
                 D.viol('rt/harmed/%s/%s' % (kind, where), 'job finishing before its %d s limit did not end normally: %s' % (L, what))
         D.sample('`%s\' under %d s as %s (request %d of %d): ran %s s' % (cmd, L, kind, n + 1, len(case), real))
     D.nontrivial()
     D.count('rt_runs')
+
+
+def judge_stream(D, reqs, blocked, r):
+    """the streams of NEWCASES.  Every request is judged against what the journal itself says about the moment its
+    turn came: that moment lies between the end of the request before it (COMPLETED of that entry; for the first
+    request the second in which echsx was started) and its own DTSTART (run) / COMPLETED (refused), whole seconds."""
+    def say(q):
+        if q['kind'] == 'DUE':
+            lim = 'DUE:T0%+ds' % q['L']
+        elif q['kind'] == 'BADUSER':
+            lim = 'X-ECHS-SETUID:%s (no such user), no limit' % NOUSER
+        else:
+            lim = 'a %d s limit given as %s' % (q['L'], q['kind'])
+        return "`%s' (X-ECHS-SHELL:%s) under %s" % (q['cmd'], q['shell'] or '/bin/sh', lim)
+    D.desc('real run of one echsx request stream%s (T0 = the second in which echsx is started): %s; limit lines handed to echsx: %s' % (
+        ', echsx started with %s blocked' % '+'.join(blocked) if blocked else '', ', then '.join(say(q) for q in reqs),
+        [l for l in (r.get('tmpl') or '').split('\n') if l.startswith(('DURATION', 'DUE'))]))
+    if r.get('err'):
+        D.viol('rt/harness', r['err'])
+        return
+    js = r['journal']
+    shape = 'sigmask' if blocked else 'stream'
+    if len(js) != len(reqs) or [j.get('UID') for j in js] != ['c14-limit-%d' % n for n in range(len(reqs))]:
+        D.viol('rt/journal/%s' % shape, 'journal entries %r for %d requests (want one each, in order), echsx exit status %s' % (
+            [j.get('UID') for j in js], len(reqs), r.get('rc')))
+        return
+    # what echsx armed, per started job: a non-zero alarm() before the spawn of the job
+    armed, cur = [], None
+    for ln in r['shim'].split('\n'):
+        m = re.match(r'^alarm (\d+)$', ln)
+        if m and int(m.group(1)):
+            cur = int(m.group(1))
+        elif ln.startswith('spawn rc='):
+            armed.append(cur)
+            cur = None
+    nrun = sum(1 for j in js if j.get('STATUS') != 'CANCELLED')
+    if len(armed) != nrun:
+        armed = None
+    prev_end, prev = r['launch'], None
+    k = 0
+    premise = True
+    for n, (q, j) in enumerate(zip(reqs, js)):
+        L, kind = q['L'], q['kind']
+        refused = j.get('STATUS') == 'CANCELLED'
+        where = ('sigmask' if blocked else 'first') if n == 0 else 'after-' + prev
+        end = e3lib.parse_ical_time(j.get('COMPLETED', ''))
+        sta = e3lib.parse_ical_time(j.get('DTSTART', ''))
+        m = re.match(r'^(\d+\.\d+)s$', j.get('X-REAL-TIME', ''))
+        real = float(m.group(1)) if m else None
+        sig = j.get('X-SIGNAL')
+        a = None
+        if not refused:
+            a = armed[k] if armed is not None else None
+            k += 1
+        # no measured numbers in `what': the detail of a violation must be the same on every replay
+        what = 'request %d of %d (%s): %s' % (n + 1, len(reqs), say(q), 'STATUS:CANCELLED, %s' % j.get('DESCRIPTION') if refused else
+                                            'X-EXIT-STATUS:%s X-SIGNAL:%s' % (j.get('X-EXIT-STATUS'), sig))
+        if end is None or (not refused and (sta is None or real is None)):
+            D.viol('rt/journal/%s' % where, 'times missing in the journal entry: %s' % what)
+        elif kind == 'BADUSER':
+            if not refused:
+                # not this property's business; the stream is not the one we meant to play
+                premise = False
+        elif kind == 'DUE':
+            due = r['T0'] + L
+            if refused:
+                if end < due:
+                    D.viol('rt/refused-early/DUE/%s' % where, 'refused although its DUE had not come when the refusal was journalled: %s' % what)
+            elif prev_end > due:
+                # (how the job that should not have been started ended is left out: it may race with the timer)
+                D.viol('rt/overdue-run/DUE/%s' % where, 'started although its DUE had passed when the request before it ended: request %d of %d (%s)' % (
+                    n + 1, len(reqs), say(q)))
+            else:
+                # its turn came in [prev_end, sta]: echsx is to arm DUE - now
+                if a is None and armed is not None:
+                    D.viol('rt/no-timer/DUE/%s' % where, 'started without a timer: %s' % what)
+                elif a is not None and a > due - prev_end + 1:
+                    D.viol('rt/armed-long/DUE/%s' % where, 'timer armed for more than a second beyond DUE - (end of the request before): %s' % what)
+                elif a is not None and a < due - sta - 1:
+                    D.viol('rt/armed-short/DUE/%s' % where, 'timer armed for more than a second less than DUE - (start of the job): %s' % what)
+                if sig is None:
+                    # ended by itself: fine if that was before DUE
+                    if end > due + 1:
+                        D.viol('rt/not-killed/DUE/%s' % where, 'job outlived its DUE and ran to its own end: %s' % what)
+                    elif j.get('X-EXIT-STATUS') != '0':
+                        D.viol('rt/harmed/DUE/%s' % where, 'job ending before its DUE did not end normally: %s' % what)
+                elif end < due - 1:
+                    D.viol('rt/early/DUE/%s' % where, 'job killed more than a second before its DUE: %s' % what)
+                elif end > due + SLACK:
+                    D.viol('rt/late/DUE/%s' % where, 'job killed more than %.0f s after its DUE: %s' % (SLACK, what))
+        elif refused:
+            D.viol('rt/refused/%s/%s' % (kind, where), 'request with a limit of %d s refused: %s' % (L, what))
+        elif q['must']:
+            if sig is None:
+                D.viol('rt/not-killed/%s/%s' % (kind, where), 'job outlived its %d s limit and ran to its own end: %s' % (L, what))
+            elif a is not None and a != L:
+                D.viol('rt/armed/%s/%s' % (kind, where), 'timer armed for %d s under a limit of %d s: %s' % (a, L, what))
+            elif real > L + SLACK:
+                D.viol('rt/late/%s/%s' % (kind, where), 'job killed more than %.0f s after its %d s limit: %s' % (SLACK, L, what))
+        elif sig is not None or j.get('X-EXIT-STATUS') != '0':
+            D.viol('rt/harmed/%s/%s' % (kind, where), 'job finishing before its %d s limit did not end normally: %s' % (L, what))
+        D.sample('%s (request %d of %d): %s' % (say(q), n + 1, len(reqs), 'refused' if refused else 'ran %s s, signal %s' % (real, sig)))
+        prev = 'refused' if refused else 'run'
+        if end is not None:
+            prev_end = end
+    if premise:
+        D.nontrivial()
+    else:
+        D.count('premise_missed')
+    D.count('rt_runs')
+    D.count('rt_requests', len(reqs))
 
 
 if __name__ == '__main__':
